@@ -60,6 +60,10 @@ class CharSet:
     def __sub__(self, o):
         return self & o.complement()
 
+    def __le__(self, o):
+        """subset"""
+        return not (self - o)
+
     def __contains__(self, ch):
         cp = ord(ch) if isinstance(ch, str) else ch
         return any(a <= cp <= b for a, b in self.iv)
